@@ -40,6 +40,7 @@ type offIn struct {
 	QuietMs   int    `json:"quiet_ms"`
 	Trace     string `json:"trace"`
 	BudgetMs  int    `json:"budget_ms"`
+	AuthType  string `json:"auth_type"` // "" = auth; C19 also runs with an auth command the servers do not know
 	ResumeAt  int    `json:"resume_at"` // > 0: the target already holds a checkpoint at the end of this command
 }
 
@@ -191,6 +192,9 @@ func offRun(in []byte) (interface{}, error) {
 	})
 	conf.Options.SourceType, conf.Options.TargetType = "standalone", "standalone"
 	conf.Options.SourceAuthType, conf.Options.TargetAuthType = "auth", "auth"
+	if cfg.AuthType != "" {
+		conf.Options.SourceAuthType, conf.Options.TargetAuthType = cfg.AuthType, cfg.AuthType
+	}
 	conf.Options.ResumeFromBreakPoint = true
 	conf.Options.Parallel = 2
 	conf.Options.TargetDB = -1
